@@ -424,6 +424,7 @@ def build(tier, seed):
         pool.join()
     return {
         'truncated': '; '.join(truncated) if truncated else None,
+        'rule_more': 'settings operations that assign a grid with the same length and end values but other interior points',
         'cases': cases,
         'rule': 'engine S on real objects: (closure) BFS over the cache-control state to closure from 3 seed records x '
                 '{Signal, AccSignal} - one pool case per reachable abstract state, every operation applied to its representative; '
